@@ -268,4 +268,57 @@ floating `R`, to `double` for integral `R`. -/
 theorem C15_inRadians_eq (R : ArithTy) (m : Mag) (x : Val) :
     inRadians R m x = convert R (.flt (roundingRep R)) m x := rfl
 
+
+/-! ### Exact conversions of integral inputs, unconditionally -/
+
+/-- `static_cast<double>(n)` (and `float`, `long double`) is exact for `|n| < 2^p`. -/
+theorem C15_int_to_float_exact (f : FltTy) (n : Int) (h : n.natAbs < 2 ^ f.prec) :
+    rne f (n : Rat) = .fin (n : Rat) := rne_int_exact f n h
+
+/-- **C15, integral input × integer ratio.**  For every integral rep, every integer ratio `K`
+whose compile-time constant `get_value<double>(K)` is the integer `N` (evaluated by the driver for
+every explored instance and compared with the real headers), and every stored value with
+`|x|, |x·N| < 2^53`: `round_in`, `floor_in` and `ceil_in` all return exactly `x·N` — the true
+value, which is its own floor, ceiling and nearest integer. -/
+theorem C15_round_int_exact (fn : RFn) (t : IntTy) (K : Mag) (N : Nat) (hK : K.isInteger = true)
+    (hgv : getValueF .f64 K = some (.fin (N : Rat))) (x : Int)
+    (hx : x.natAbs < 2 ^ 53) (hxn : (x * N).natAbs < 2 ^ 53) :
+    roundIn fn (.int t) K (.i x) = .ok (.fin ((x * N : Int) : Rat)) :=
+  roundIn_int_mul_exact fn t K N hK hgv x hx hxn
+
+/-- Same unit: `round_in(u, u(n)) = n` for every integral rep and `|n| < 2^53` (no hypothesis on
+constants: the empty magnitude evaluates to 1 by definition). -/
+theorem C15_round_int_sameunit (fn : RFn) (t : IntTy) (x : Int) (hx : x.natAbs < 2 ^ 53) :
+    roundIn fn (.int t) [] (.i x) = .ok (.fin (x : Rat)) := roundIn_int_sameunit fn t x hx
+
+/-- Non-vacuity (instance of the theorem, not an evaluation). -/
+example : roundIn .ceil (.int .i16) [] (.i (-7)) = .ok (.fin ((-7 : Int) : Rat)) :=
+  C15_round_int_sameunit .ceil .i16 (-7) (by decide)
+
+/-! ### min / max / clamp on identical types (the hidden friends of `Quantity`) -/
+
+theorem C15_max_same (R1 R2 : ArithTy) (m1 m2 : Mag) (a b : Int) :
+    maxQ true R1 R2 m1 m2 (.i a) (.i b) = .ok (.i (max a b)) := by
+  simp only [maxQ, if_true, valLt]
+  by_cases h : b < a
+  · simp [h]; omega
+  · simp [h]; omega
+
+theorem C15_min_same (R1 R2 : ArithTy) (m1 m2 : Mag) (a b : Int) :
+    minQ true R1 R2 m1 m2 (.i a) (.i b) = .ok (.i (min a b)) := by
+  simp only [minQ, if_true, valLt]
+  by_cases h : b < a
+  · simp [h]; omega
+  · simp [h]; omega
+
+/-- For finite floating values the hidden friends return the larger / smaller operand too. -/
+theorem C15_max_same_float (R1 R2 : ArithTy) (m1 m2 : Mag) (a b : Rat) :
+    maxQ true R1 R2 m1 m2 (.f (.fin a)) (.f (.fin b)) = .ok (.f (.fin (if b < a then a else b))) := by
+  simp only [maxQ, if_true, valLt, FVal.lt]
+  by_cases h : b < a <;> simp [h]
+
+/-- The driver's batch commands run `ConvPlan`s; running a plan is `convert`. -/
+theorem C15_plan_sound (R N : ArithTy) (m : Mag) (x : Val) : convert R N m x = (planConvert R N m).run x :=
+  convert_eq_plan R N m x
+
 end Au
